@@ -575,6 +575,7 @@ func (e *Engine) Run(t *core.Tape, cfg *core.Config, st *core.Stats) *core.Viola
 			st.Distinct(uint64(core.Hash(srcH).Int(rd.pattern).Int(rd.zeroEvery).Int(len(rd.sizes)).Str(fmt.Sprint(rd.sizes, rd.sepEOF))))
 		}
 		st.Event("load %s mut=%s %s -> %s", srcName, mutDesc, describePattern(rd), v.class)
+		st.D(v.hLines ^ uint64(len(v.class)))
 		if rd.Overcall {
 			return core.Violationf("hang", "Load kept calling Read (> %d calls) on %s (%s) %s\ninput: %s", rd.MaxCalls, srcName, mutDesc, describePattern(rd), quoteShort(src))
 		}
@@ -591,7 +592,6 @@ func (e *Engine) Run(t *core.Tape, cfg *core.Config, st *core.Stats) *core.Viola
 	}
 	return nil
 }
-
 
 // compileEdgeProgram wraps a payload that exercises a compile-time check in a
 // random nesting of blocks and functions with a random number of surrounding
